@@ -773,6 +773,7 @@ pub fn run_run_program(args: &Args) -> Result<()> {
         (prog_fail(3), 1000, false),
         (prog_fail(4), 1000, false),
         (prog_count(120, 0), 100_000, false),
+        (prog_hostile(0), 2000, false),                      // slow bus, one instruction charged 98 states: booked in full (x the speed factor)
         (prog_ram_timer(40), 100_000, false),                // 6-state instructions from on-chip RAM under a running timer
         (prog_timer(150, 200, 0x49), 200_000, false),      // CMIEA, clear on A, clock/8: a match every 1600 states
         (prog_timer(120, 40, 0x6a), 200_000, false),       // CMIEA+OVIE, clear on A, clock/64
